@@ -197,6 +197,80 @@ let prof_check line =
     with Failure m -> verdict false ("outcome:" ^ i))
   | _ -> verdict false ("outcome:" ^ i)
 
+(* ---- C10: mode record: "<D|R> t=.. n=.. s=.. step=.. b=.. rounds=<size/ops_t0/ops_t1;...>"
+   ops of a thread in a round: "-" or "K*tok+tok&K*tok..." (K calls, each performing the '+'-joined operations) ---- *)
+let kv_of line =
+  List.filter_map (fun t -> match String.index_opt t '=' with
+    | Some i -> Some (String.sub t 0 i, String.sub t (i + 1) (String.length t - i - 1))
+    | None -> None) (nonempty (toks line))
+
+let expand_ops (s : string) : aop list =
+  if s = "-" then [] else
+  List.concat_map (fun grp ->
+    match String.index_opt grp '*' with
+    | Some i ->
+      let k = int_of_string (String.sub grp 0 i) in
+      let call = List.map (fun t -> match ev_of_tok t with EOp o -> o | EClear -> failwith "clear in record history")
+                   (String.split_on_char '+' (String.sub grp (i + 1) (String.length grp - i - 1))) in
+      List.concat (List.init k (fun _ -> call))
+    | None -> failwith ("bad call group " ^ grp)) (String.split_on_char '&' s)
+
+(* history -> the operations handed to the recording step.  A run without a fixed sample size tunes:
+   every round up to and including the first one run at the final sample size is a tuning round
+   (samples.clear(), then the round is recorded); the rounds after it only record. *)
+let record_ops (chk : bool) (tuned : bool) (rounds : string) : rop list =
+  if rounds = "-" then [] else
+  let rs = List.map (fun r -> match String.split_on_char '/' r with
+    | size :: ths -> (int_of_string size,
+                      List.map (fun ops -> match run chk (expand_ops ops) with
+                                  | Ok i -> i | Panic _ -> failwith "tally panicked in a round") ths)
+    | [] -> failwith "bad round") (String.split_on_char ';' rounds) in
+  let final = fst (List.nth rs (List.length rs - 1)) in
+  let rec first_final k = function (sz, _) :: r -> if sz = final then k else first_final (k + 1) r | [] -> k in
+  let last_tune = if tuned then first_final 0 rs else -1 in
+  List.concat (List.mapi (fun k (_, snaps) -> if k <= last_tune then [RClear; RRound snaps] else [RRound snaps]) rs)
+
+let string_of_recs (m : (n * info) list) : string =
+  if m = [] then "-" else
+  let sorted = List.sort (fun (a, _) (b, _) -> compare (int_of_n a) (int_of_n b)) m in
+  String.concat ";" (List.map (fun (k, i) ->
+    string_of_n k ^ ":" ^ String.concat "," (String.split_on_char ' ' (string_of_info i))) sorted)
+
+let parse_record_case line =
+  let kv = kv_of line in
+  let chk = chk_of (List.hd (nonempty (toks line))) in
+  let tuned = (List.assoc "s" kv = "0") in
+  (chk, tuned, kv)
+
+let record line =
+  let (chk, tuned, kv) = parse_record_case line in
+  let rounds = List.assoc "rounds" kv in
+  let st = rec_run (record_ops chk tuned rounds) in
+  "rounds=" ^ rounds ^ " len=" ^ string_of_n st.s_len ^ " rec=" ^ string_of_recs st.s_map
+
+let record_why l = String.concat "," (List.map (fun n -> match int_of_n n with
+  | 1 -> "number-of-samples" | 2 -> "sample-has-exactly-its-own-threads-snapshot-iff-non-empty"
+  | 3 -> "entry-beyond-the-samples" | 4 -> "duplicate-keys" | _ -> "?") l)
+
+let record_check line =
+  let (c, i) = split_sb line in
+  let (chk, tuned, _) = parse_record_case c in
+  match kv_of i with
+  | [("rounds", rounds); ("len", len); ("rec", recs)] ->
+    (try
+      let ops = record_ops chk tuned rounds in
+      let recs = if recs = "-" then [] else
+        List.map (fun e -> match String.split_on_char ':' e with
+          | [k; nums] ->
+            (match parse_res_info ("ok " ^ String.concat " " (String.split_on_char ',' nums)) with
+             | Some (Ok inf) -> (n_of_string k, inf)
+             | _ -> failwith "bad record")
+          | _ -> failwith "bad record entry") (String.split_on_char ';' recs) in
+      let len = n_of_string len in
+      verdict (record_sb ops len recs) (record_why (record_sb_why ops len recs))
+    with Failure m -> verdict false ("outcome:" ^ m))
+  | _ -> verdict false ("outcome:" ^ i)
+
 (* mode churn: the run-time part (tested, not proved): the global-allocator binary prints "equal ..." *)
 let churn _ = "equal"
 let churn_check line =
@@ -212,6 +286,8 @@ let dispatch mode line =
   | "guard" -> guard line
   | "prof" -> prof line
   | "prof.sb" -> prof_check line
+  | "record" -> record line
+  | "record.sb" -> record_check line
   | "churn" -> churn line
   | "churn.sb" -> churn_check line
   | _ -> failwith ("unknown mode " ^ mode)
